@@ -2264,7 +2264,7 @@ def c03(tier, rng):
     res.rule = "systematic nested layouts (6 parents x indentation step 1-3 x 15 kinds of first key/item x 1-2 pairs); streams rendered from random abstract trees (depth <= 4; block/flow, compact/next-line, explicit keys, sequences at the indentation of their key, comments, blank lines, node properties, aliases, 1-2 documents, markers, %YAML) + the non-error yaml-test-suite cases; non-trivial = at least one collection; distinct by text"
     res.corr_ops = ['evt str / evt buf (model pipeline) on every rendered stream, a third of them without the final line break']
     r = rng.fork('c03')
-    base = R.nested_layout_cases() + [R.render_stream(r) for _ in range(20000 if tier == 'quick' else 500000)]
+    base = R.end_of_input_cases() * 6 + R.nested_layout_cases() + [R.render_stream(r) for _ in range(20000 if tier == 'quick' else 500000)]
     # every stream is also read without its final line break (the last token then ends at the end of the input)
     # and through the character-iterator back-end: the denoted tree is the same
     cases, kinds = [], []
